@@ -16,7 +16,10 @@ TECHNIQUE = ("Lean 4 invariant proofs over an executable finite-map model of Bac
              "FileResult/DirectoryResult); netstring unique decodability and canonical sorting proved for the directory "
              "encoding; differential correspondence of seeded API-call histories against a real BackupDB_v2 on SQLite "
              "with os.stat / time.time / random.random controlled")
-LEVEL_TEXT = ("reuse_only_if_unchanged and dir_reuse_only_same_contents (under an explicit collision-freeness hypothesis on the "
+LEVEL_TEXT = ("Session level (the tool working through FileResult/DirectoryResult objects, incl. old ones): "
+              "session_reuse_only_if_unchanged, session_results_carry_sampled_stat, session_dir_reuse_only_same_contents; caps table: "
+              "fileid_of_cap_unique, fileid_determines_cap, alloc_stable_along_history, alloc_independent_of_other_tables. "
+              "reuse_only_if_unchanged and dir_reuse_only_same_contents (under an explicit collision-freeness hypothesis on the "
               "directory hash) are proved for every history of API calls; dir_encoding_injective/canonical for all contents; "
               "the model is tied to the code by comparing every call's result, the hashed directory string and full table dumps.")
 LEVEL_NOTE = ("Lean kernel + standard axioms; the model is a hand transcription tied by correspondence; SQLite semantics "
@@ -273,6 +276,18 @@ def gen_history(rng, n):
             steps.append(["dc", idx, (rng.choice([b"URI:DIR2-CHK:d%d" % rng.randrange(4), b""]) if rng.random() < 0.9 else b"").hex()])
         elif r < 0.95 and ndres:
             steps.append(["dh", ndres - 1 if rng.random() < 0.7 else rng.randrange(ndres)])
+        elif r < 0.965:
+            # direct calls of the BackupDB_v2 methods (not through a result object)
+            k = rng.random()
+            if k < 0.4:
+                st = list(files[rng.choice(sorted(files))]) if files and rng.random() < 0.7 else [rng.randrange(20), BASE_T, BASE_T]
+                steps.append(["api-up", rng.choice(PATHS), st, newcap().hex()])
+            elif k < 0.6:
+                steps.append(["api-hl", rng.choice(CAPS + [b"URI:CHK:new1", b"URI:CHK:never-seen"]).hex()])
+            elif k < 0.8 and ndres:
+                steps.append(["api-dc", rng.randrange(ndres), (b"URI:DIR2-CHK:d%d" % rng.randrange(4)).hex()])
+            else:
+                steps.append(["api-dh", (b"URI:DIR2-CHK:d%d" % rng.randrange(4)).hex()])
         elif r < 0.98:
             steps.append(["dump"])
         else:
@@ -374,9 +389,10 @@ def execute(ctx, steps, dbfile, case):
         tok = "upr:%d:%s:%d" % (drv_idx, hx(cap), w.time.now)
         toks.append(tok); outs.append("ok"); note(tok, False)
 
-    def do_hl(r):
+    def do_hl(idx):
+        r = fres[idx]
         r.did_check_healthy({"results": {"healthy": True}})
-        tok = "hl:%s:%d" % (hx(r.filecap), w.time.now)
+        tok = "hlr:%d:%d" % (checked[idx][3], w.time.now)
         toks.append(tok); outs.append("ok"); note(tok, False)
 
     def enc_entries(c):
@@ -413,7 +429,7 @@ def execute(ctx, steps, dbfile, case):
             elif op == "hl":
                 r = fres[st[1]]
                 if r is not None and r.filecap is not None:
-                    do_hl(r)
+                    do_hl(st[1])
             elif op == "run":
                 _, ts, ks, healthy, caps = st
                 for i, p in enumerate(sorted(w.os.files)):
@@ -422,7 +438,7 @@ def execute(ctx, steps, dbfile, case):
                         do_up(len(fres) - 1, bytes.fromhex(caps[i % len(caps)]))
                     elif r.should_check():
                         if healthy[i % len(healthy)]:
-                            do_hl(r)
+                            do_hl(len(fres) - 1)
                         else:
                             do_up(len(fres) - 1, bytes.fromhex(caps[i % len(caps)]))
             elif op == "cd":
@@ -455,14 +471,38 @@ def execute(ctx, steps, dbfile, case):
                 d = bytes.fromhex(st[2])
                 r.did_create(d)
                 ref_created.append((contents, d))
-                tok = "dc:%s:%s:%d" % (hx(d), enc_entries(c), w.time.now)
+                tok = "dcr:%d:%s:%d" % (st[1], hx(d), w.time.now)
                 toks.append(tok); outs.append("ok"); note(tok, False)
             elif op == "dh":
                 r, c, contents = dres[st[1]]
                 if r.dircap is not None:
                     r.did_check_healthy({"results": {"healthy": True}})
-                    tok = "dh:%s:%d" % (hx(r.dircap), w.time.now)
+                    tok = "dhr:%d:%d" % (st[1], w.time.now)
                     toks.append(tok); outs.append("ok"); note(tok, False)
+            elif op == "api-up":
+                _, p, (size, mtime, ctime), caphex = st
+                cap = bytes.fromhex(caphex)
+                w.bdb.did_upload_file(cap, p, mtime, ctime, size)
+                ref_upload[p] = (size, mtime, ctime, cap, None, False, w.os.files.get(p))
+                tok = "up:%s:%s:%d:%d:%d:%d" % (hx(cap), hx(p.encode("utf-8")), mtime, ctime, size, w.time.now)
+                toks.append(tok); outs.append("ok"); note(tok, False)
+            elif op == "api-hl":
+                cap = bytes.fromhex(st[1])
+                w.bdb.did_check_file_healthy(cap, {"results": {"healthy": True}})
+                tok = "hl:%s:%d" % (hx(cap), w.time.now)
+                toks.append(tok); outs.append("ok"); note(tok, False)
+            elif op == "api-dc":
+                r, c, contents = dres[st[1]]
+                d = bytes.fromhex(st[2])
+                w.bdb.did_create_directory(d, r.dirhash)
+                ref_created.append((contents, d))
+                tok = "dc:%s:%s:%d" % (hx(d), enc_entries(c), w.time.now)
+                toks.append(tok); outs.append("ok"); note(tok, False)
+            elif op == "api-dh":
+                d = bytes.fromhex(st[1])
+                w.bdb.did_check_directory_healthy(d, {"results": {"healthy": True}})
+                tok = "dh:%s:%d" % (hx(d), w.time.now)
+                toks.append(tok); outs.append("ok"); note(tok, False)
             elif op == "dump":
                 toks.append("dump"); outs.append(w.dump())
             elif op == "reopen":
